@@ -216,6 +216,7 @@ func checkC20(r *run, c *CloneCase) (CaseInfo, error) {
 	ci.class("mut:" + c.Mut)
 	ci.class("side:" + c.Side)
 	var orig *rtp.Packet
+	var wire []byte // the datagram a decoded original still points into
 	if c.FromWire {
 		ci.class("from-wire")
 		p, err := m.packet()
@@ -244,6 +245,7 @@ func checkC20(r *run, c *CloneCase) (CaseInfo, error) {
 		if err := orig.Unmarshal(b); err != nil {
 			return ci, failf("Unmarshal: %v", err)
 		}
+		wire = b
 		if c.WithRaw {
 			orig.Raw = b
 			ci.class("raw-field-set")
@@ -428,6 +430,25 @@ func checkC20(r *run, c *CloneCase) (CaseInfo, error) {
 			}
 		}
 	}
+	if wire != nil && c.Side == "orig" {
+		// the datagram the original was decoded from is the original's memory (every value, also one
+		// no accessor reaches, lives in it): overwrite all of it, no copy may move
+		for i := range wire {
+			wire[i] ^= 0xFF
+		}
+		ci.class("datagram-of-the-original-overwritten")
+		for _, o := range []struct {
+			name string
+			p    *rtp.Packet
+		}{{"the clone", cl}, {"a second clone", sibling}, {"a clone of the clone", grandchild}} {
+			if got := fullObs(o.p); got != before {
+				return ci, failf("overwriting the datagram the original was decoded from changed %s:\n before: %s\n after:  %s", o.name, before, got)
+			}
+		}
+		if got := hdrObs(&hc); got != hbefore {
+			return ci, failf("overwriting the datagram the original was decoded from changed an earlier Header.Clone:\n before: %s\n after:  %s", hbefore, got)
+		}
+	}
 
 	return ci, nil
 }
@@ -485,7 +506,7 @@ func genCloneCase(t *rapid.T) *CloneCase {
 	return c
 }
 
-const ruleC20 = "C01's well-formed packets (built through the API, or obtained from Unmarshal so that all slices alias one wire buffer (a quarter of those from an image that repeats an extension id); nil and empty payload/CSRC/extension values; the deprecated PayloadOffset header field set or not; one case in eight with the Extension flag cleared while the entries stay; decoded packets sometimes with the deprecated Raw field pointing at their datagram) x one mutation {flip payload byte, change CSRC entry, flip a byte of an extension value through the slice GetExtension returns, SetExtension new/replace, DelExtension, scalar field, padding size} applied to the original or to the clone, or a different new extension set on BOTH sides; optionally the extension list is first emptied again with DelExtension (length 0, spare capacity); oracle: clone observably equal (all fields, ids, values, Marshal bytes), untouched side unchanged after the mutation, as are a second clone of the original and a clone of the clone taken before it, and a clone of the untouched side taken after it; same for Header.Clone. Non-trivial = the mutation was applicable; distinct = FNV-64 of the JSON case"
+const ruleC20 = "C01's well-formed packets (built through the API, or obtained from Unmarshal so that all slices alias one wire buffer (a quarter of those from an image that repeats an extension id); nil and empty payload/CSRC/extension values; the deprecated PayloadOffset header field set or not; one case in eight with the Extension flag cleared while the entries stay; decoded packets sometimes with the deprecated Raw field pointing at their datagram) x one mutation {flip payload byte, change CSRC entry, flip a byte of an extension value through the slice GetExtension returns, SetExtension new/replace, DelExtension, scalar field, padding size} applied to the original or to the clone, or a different new extension set on BOTH sides; optionally the extension list is first emptied again with DelExtension (length 0, spare capacity); oracle: clone observably equal (all fields, ids, values, Marshal bytes), untouched side unchanged after the mutation, as are a second clone of the original and a clone of the clone taken before it, and a clone of the untouched side taken after it; same for Header.Clone; finally the whole datagram a decoded original points into is overwritten: no copy moves. Non-trivial = the mutation was applicable; distinct = FNV-64 of the JSON case"
 
 func TestC20(t *testing.T) {
 	r := begin(t, "C20", "exploration", ruleC20)
